@@ -1218,6 +1218,8 @@ class Interp:
                 return v if not dyn else True
         if not dyn:
             return last
+        # undetermined operands that are terms but not Boolean terms (an opaque predicate such as allclose(...) of symbolic data) enter as "term != 0"
+        dyn = [d if _is_boolterm(d) else sp.Ne(d, 0) for d in dyn]
         return sp.And(*dyn) if is_and else sp.Or(*dyn)
 
     def e_Compare(self, node, env):
@@ -1808,6 +1810,12 @@ class Interp:
                 raise KpeRaise("TypeError: unhashable type")
             return 0
         if name == "type":
+            # type(obj): a model object may carry its own constructor ("__class__" attribute: a callable or a ClassRef); real instances give their class
+            if len(args) == 1 and isinstance(args[0], SymObj):
+                if "__class__" in args[0].attrs:
+                    return args[0].attrs["__class__"]
+                if args[0].cls is not None:
+                    return args[0].cls
             return Opaque("type")
         if name in ("ValueError", "RuntimeError", "TypeError", "NotImplementedError", "Exception", "ZeroDivisionError",
                     "KeyError", "IndexError"):
